@@ -20,7 +20,7 @@ RULE = (
 QUICK = {"examples": 1600, "shards": 16, "budget_s": 300}
 THOROUGH = {"examples": 24000, "shards": 16, "budget_s": 2400}
 ASSUMPTIONS = [
-    "bin weights lie in (0,1): weight 1 with residual 0 gives 0/0, for which the statement defines no value",
+    "bin weights lie in (0,1]; a full-weight bin (weight exactly 1, as fix's clipping produces) with a non-zero residual has p = 0 by the stated formula; with residual exactly 0 it is 0/0 and the bin is not asserted, but it still counts as a hypothesis for the BH adjustment",
     "segments do not overlap one another; boundaries lie at bin edges or inside a bin (the straddling bin then belongs to both neighbours for segmetrics and to neither for bintest); extra bin-less segments sit in gaps or on other chromosomes",
     "bintest tests exactly the bins wholly inside a segment; with target_only the off-target bins are removed before the BH adjustment (number of hypotheses = bins tested)",
     "an adjusted p within 1e-12 of alpha accepts either decision; floating tolerance 1e-9 on statistics",
@@ -56,7 +56,7 @@ def strategy(draw):
             "smoothed": draw(st.booleans()), "skip_low": draw(st.booleans()),
             "extra_empty_chrom": draw(st.booleans()), "index": draw(st.sampled_from([[0, 1], [0, 1], [5, 2]])),
             "bt_alpha": draw(st.sampled_from([0.005, 0.05, 0.5])), "target_only": draw(st.booleans()),
-            "straddle": draw(st.lists(st.booleans(), min_size=12, max_size=12))}
+            "straddle": draw(st.lists(st.booleans(), min_size=12, max_size=12)), "full_weight": draw(st.booleans())}
 
 
 def build(case):
@@ -78,7 +78,9 @@ def build(case):
                     v = -20.0
                 bins.append({"chromosome": c["name"], "start": pos, "end": pos + ln,
                              "gene": ["G", "Antitarget", "G", "Background"][int(rng.integers(0, 4))], "log2": v,
-                             "depth": 0.0 if null else 10.0, "weight": float(rng.uniform(0.02, 0.98))})
+                             "depth": 0.0 if null else 10.0,
+                             # fix clips weights to [1e-4, 1]: a full-weight bin (sd 0) is legitimate input
+                             "weight": 1.0 if case.get("full_weight") and rng.random() < 0.08 else float(rng.uniform(0.02, 0.98))})
                 vals.append(v)
                 pos += ln + int(rng.integers(0, 3)) * 10
             if s["n"] == 0:
@@ -278,6 +280,7 @@ def check_case(case):
     # ---- bintest
     resb = bintest.do_bintest(cnarr, segarr, case["bt_alpha"], case["target_only"])
     tested = []
+    untestable = set()
     for b in bins:
         seg = [s for s in segs if s["chromosome"] == b["chromosome"] and b["start"] >= s["start"] and b["end"] <= s["end"]]
         if not seg:
@@ -285,8 +288,19 @@ def check_case(case):
         if case["target_only"] and b["gene"] in ("Antitarget", "Background"):
             continue
         r = b["log2"] - seg[0]["log2"]
-        p = 2.0 * _phi(-abs(r) / math.sqrt(1 - b["weight"]))
+        if b["weight"] >= 1.0:
+            if r == 0:
+                untestable.add((b["chromosome"], b["start"], b["end"]))  # 0/0: the statement defines no value
+                continue
+            p = 0.0  # |r| / sqrt(1 - 1) = inf: the two-sided tail is exactly 0
+        else:
+            p = 2.0 * _phi(-abs(r) / math.sqrt(1 - b["weight"]))
         tested.append((b, p))
+    if untestable:
+        # a 0/0 bin yields a NaN p-value inside the BH step-up: nothing about this table's bintest is asserted
+        if not cnarr.data.equals(before_bins) or not segarr.data.equals(before_segs):
+            bad("input-modified", "segmetrics/bintest changed their inputs")
+        return out
     adj = M.bh_adjust([p for _, p in tested]) if tested else []
     exp = {}
     for (b, _p), q in zip(tested, adj):
@@ -304,7 +318,7 @@ def check_case(case):
             bad("bintest:p", f"bin {key}: reported adjusted p {got[key]!r}, independent value {q!r}")
             break
     for key in got:
-        if key not in exp:
+        if key not in exp and key not in untestable:
             bad("bintest:set", f"bin {key} returned but is not a tested bin (outside every segment or off-target)")
             break
     if not cnarr.data.equals(before_bins) or not segarr.data.equals(before_segs):
